@@ -96,7 +96,8 @@ def _compute_thl_try_speciation(
 
     def spe_combinator(left, right):
         return Candidate(
-            left.value
+            costs[NodeEvent.SPECIATION]
+            + left.value
             + right.value
             + loss_cost
             * (
